@@ -11,7 +11,7 @@ import (
 )
 
 var repo = flag.String("repo", "/repo", "repository root")
-var allExtractors = []string{"wire", "classify", "sites", "boxconsts", "adapter", "blocking", "net", "ps", "locks"}
+var allExtractors = []string{"wire", "classify", "sites", "boxconsts", "adapter", "blocking", "net", "ps", "locks", "stmts"}
 
 var outDir = flag.String("out", "/verif/lean/TSSVerif/Gen", "output directory for generated Lean files")
 
@@ -45,6 +45,8 @@ func main() {
 			name, body = "Ps", genPs()
 		case "locks":
 			name, body = "Locks", genLocks()
+		case "stmts":
+			name, body = "Stmts", genStmts()
 		default:
 			fmt.Fprintf(os.Stderr, "unknown extractor %q\n", w)
 			os.Exit(2)
